@@ -865,7 +865,7 @@ def find_witness(pid, deep=True):
             if not w.endswith(".json"):
                 continue
             wp = os.path.join(wdir, w)
-            rc, lines, err = run_replay(wp, timeout_s=5)
+            rc, lines, err = run_replay(wp, timeout_s=10)
             hits = [l for l in lines if ("property=%s " % pid) in l and not any(("clause=%s " % c) in l for c in excl)]
             # clauses that are the executable form of the proved contracts count only together with the ideal clause
             need = {"C04": ["match_order.time_priority"], "C19": ["pop.fifo_order"]}.get(pid, [])
